@@ -92,9 +92,10 @@ def plan(ctx):
     stages = [
         ('shard_enum', [('cat', 'A_CAT', L1, i, 32) for i in range(32)] +
                        [('core', 'A_CORE', L2, i, 32) for i in range(32)] +
-                       [('tok', 'A_TOK', L3, i, 32) for i in range(32)]),
+                       [('tok', 'A_TOK', 3, i, 32) for i in range(32)] +
+                       ([('tokcore', 'A_TOK_CORE', 4, i, 64) for i in range(64)] if ctx.thorough else [])),
         ('shard_random', [('rnd', ctx.pick(1200, 40000), i) for i in range(16)]),
-        ('shard_mutations', [('mut', ctx.pick(5, 150), i) for i in range(16)]),
+        ('shard_mutations', [('mut', ctx.pick(5, 40), i) for i in range(16)]),
         ('shard_chains', [('chain', ctx.pick(25, 600), i) for i in range(16)]),
     ]
     return stages
